@@ -512,6 +512,10 @@ impl Sim {
             "off" => {
                 clause = "bytes-at-offset";
                 props.push("C04");
+                if ctx.kind != CtxKind::Restart {
+                    // within one Store lifetime an acknowledged offset is also a reference
+                    props.push("C15");
+                }
             }
             "has" | "byid" => {
                 let is_self = ctx.event.as_ref().map(|e| Some(e.id) == subject).unwrap_or(false);
@@ -881,6 +885,13 @@ impl Sim {
             return result;
         }
 
+        // --- held references first (C15): same address, same bytes
+        let grew = self.grew_since(map_len_before);
+        if let Some(f) = self.check_refs(i, grew) {
+            self.cleanup_snaps(&snaps);
+            return Some(f);
+        }
+
         // --- after: the full observation against the model
         let is_err = !matches!(out, StoreOutcome::Ok(_));
         if is_err {
@@ -923,10 +934,14 @@ impl Sim {
                 return Some(f);
             }
         }
-        let grew = self.grew_since(map_len_before);
-        if let Some(f) = self.check_refs(i, grew) {
-            self.cleanup_snaps(&snaps);
-            return Some(f);
+        if self.cfg.prop == "C15" && self.refs.len() < 48 {
+            // C15 runs hold a reference to everything they store
+            if let StoreOutcome::Ok(_) = out {
+                if let Some(f) = self.take_ref(i, &e.id) {
+                    self.cleanup_snaps(&snaps);
+                    return Some(f);
+                }
+            }
         }
         self.install_blocker();
 
@@ -969,12 +984,12 @@ impl Sim {
         self.log.push(format!("#{i} remove {} (was retrievable: {was})", short(id)));
         self.stats.inc(if was { "remove/present" } else { "remove/absent" });
         let _ = self.model.apply_remove(id);
-        let ctx = OpCtx { kind: CtxKind::Remove, event: None, desc: format!("remove of {}", short(id)), also: &[] };
-        if let Some(f) = self.check_against_model(i, &ctx) {
+        if let Some(f) = self.check_refs(i, false) {
             self.cleanup_snaps(&snaps);
             return Some(f);
         }
-        if let Some(f) = self.check_refs(i, false) {
+        let ctx = OpCtx { kind: CtxKind::Remove, event: None, desc: format!("remove of {}", short(id)), also: &[] };
+        if let Some(f) = self.check_against_model(i, &ctx) {
             self.cleanup_snaps(&snaps);
             return Some(f);
         }
@@ -1017,12 +1032,12 @@ impl Sim {
             self.stats.inc("probe/vanish_giftwrap");
         }
         let _ = self.model.apply_vanish(pk);
-        let ctx = OpCtx { kind: CtxKind::Remove, event: None, desc: format!("vanish of {}", short(pk)), also: &[] };
-        if let Some(f) = self.check_against_model(i, &ctx) {
+        if let Some(f) = self.check_refs(i, false) {
             self.cleanup_snaps(&snaps);
             return Some(f);
         }
-        if let Some(f) = self.check_refs(i, false) {
+        let ctx = OpCtx { kind: CtxKind::Remove, event: None, desc: format!("vanish of {}", short(pk)), also: &[] };
+        if let Some(f) = self.check_against_model(i, &ctx) {
             self.cleanup_snaps(&snaps);
             return Some(f);
         }
